@@ -1,4 +1,5 @@
 import Lox.Rang3.Model
+import Lox.Rang3.Proofs
 /-! Property theorems for C15 (character classes and literals denote exact code-point sets).
 Only statements that are part of the property live here; helper lemmas are in `Lox.Rang3.Proofs`. -/
 namespace Lox.Props.C15
@@ -29,5 +30,298 @@ theorem contains_iff (a b : Range) (hb : b.b ≤ b.e) :
     have h1 := h b.b ⟨by omega, hb⟩
     have h2 := h b.e ⟨hb, by omega⟩
     simp; omega
+
+/-! ## 1. `Flatten` -/
+
+/-- `Flatten` (range.go) keeps exactly the code points of its input: for every list of ranges with
+`b ≤ e`, `c ∈ ⟦flatten rs⟧ ↔ c ∈ ⟦rs⟧`. -/
+theorem flatten_den (rs : List Range) (hv : ∀ r ∈ rs, Valid r) (c : Int) :
+    Den (flatten rs) c ↔ Den rs c := flatten_den' rs hv c
+
+/-- The result of `Flatten` is canonical: every range non-empty, strictly increasing and pairwise
+non-touching (`x.e + 1 < y.b` whenever `x` comes before `y`). -/
+theorem flatten_sorted (rs : List Range) (hv : ∀ r ∈ rs, Valid r) :
+    (∀ r ∈ flatten rs, Valid r) ∧ (flatten rs).Pairwise (fun x y => x.e + 1 < y.b) :=
+  flatten_flat' rs hv
+
+example : (∀ r ∈ [(⟨5, 9⟩ : Range), ⟨1, 3⟩, ⟨4, 4⟩, ⟨20, 30⟩], Valid r) ∧
+    flatten [⟨5, 9⟩, ⟨1, 3⟩, ⟨4, 4⟩, ⟨20, 30⟩] = [⟨1, 9⟩, ⟨20, 30⟩] := by decide
+
+/-! ## 2. `Subtract` -/
+
+/-- `Subtract(a, b)` (range.go) is set difference: for all lists of ranges with `b ≤ e`,
+`c ∈ ⟦subtract a b⟧ ↔ c ∈ ⟦a⟧ ∧ c ∉ ⟦b⟧`. Covers the early `return a` when either side is empty and
+the `eb.B + 1` arm of the loop. -/
+theorem subtract_den (a b : List Range) (ha : ∀ r ∈ a, Valid r) (hb : ∀ r ∈ b, Valid r) (c : Int) :
+    Den (subtract a b) c ↔ Den a c ∧ ¬ Den b c := subtract_den' a b ha hb c
+
+/-- The result of `Subtract` is canonical (non-empty ranges, strictly increasing, pairwise
+non-touching). When `b` is empty Go returns `a` itself, so `a` must then be canonical already
+(it always is where `GetRanges` calls `Subtract`, see `eval_sorted`). -/
+theorem subtract_sorted (a b : List Range) (ha : ∀ r ∈ a, Valid r) (hb : ∀ r ∈ b, Valid r)
+    (hfa : b = [] → Flat a) : Flat (subtract a b) := by
+  refine subtract_flat' a b ha hb ?_
+  rintro (h | h)
+  · have : a = [] := by simpa using h
+    subst this; exact flat_nil
+  · exact hfa (by simpa using h)
+
+/-- The fuel the model gives to the loop of `Subtract` is never exhausted: any larger amount of fuel
+gives the same result (the loop has terminated by itself). -/
+theorem subtract_fuel_suffices (a b : List Range) (ha : ∀ r ∈ a, Valid r) (hb : ∀ r ∈ b, Valid r)
+    (fuel' : Nat) (hf : 4 * ((flatten a).length + 1) * ((flatten b).length + 1) + 8 ≤ fuel') :
+    subtractLoop fuel' (flatten a) (flatten b) [] =
+      subtractLoop (4 * ((flatten a).length + 1) * ((flatten b).length + 1) + 8) (flatten a) (flatten b) [] :=
+  subtractLoop_fuel_ge _ _ _ _ _ (subInv_init (flatten_flat' a ha) (flatten_flat' b hb))
+    (subMeasure_init_lt _ _) hf
+
+/-- Hence `subtract` is the fuel-free loop: with non-empty sides it equals the loop run with any
+sufficiently large fuel. -/
+theorem subtract_eq_loop (a b : List Range) (ha : ∀ r ∈ a, Valid r) (hb : ∀ r ∈ b, Valid r)
+    (hne : a ≠ [] ∧ b ≠ []) (fuel' : Nat)
+    (hf : 4 * ((flatten a).length + 1) * ((flatten b).length + 1) + 8 ≤ fuel') :
+    subtract a b = subtractLoop fuel' (flatten a) (flatten b) [] := by
+  rw [subtract_fuel_suffices a b ha hb fuel' hf]
+  unfold subtract
+  have : (a.isEmpty || b.isEmpty) = false := by
+    cases a <;> cases b <;> simp_all
+  simp [this]
+
+-- the `eb.B + 1` arm (`[1-9] - [3-5]`), a cut on both sides, and an untouched range
+example : subtract [⟨1, 9⟩, ⟨20, 30⟩, ⟨40, 41⟩] [⟨3, 5⟩, ⟨0, 0⟩, ⟨18, 22⟩, ⟨29, 35⟩] =
+    [⟨1, 2⟩, ⟨6, 9⟩, ⟨23, 28⟩, ⟨40, 41⟩] := by decide
+
+/-! ## 3. Class expressions -/
+
+/-- Set-theoretic reading of a class expression over the code space `0 … 0x10FFFF`. -/
+def meaning : ClassExpr → Int → Prop
+  | .cls false items, c => Den items c
+  | .cls true items, c => 0 ≤ c ∧ c ≤ maxRune ∧ ¬ Den items c
+  | .sub l r, c => meaning l c ∧ ¬ meaning r c
+  | .add l r, c => meaning l c ∨ meaning r c
+
+/-- `GetRanges` (char_class.go, char_class_expr.go) returns a canonical list. -/
+theorem eval_sorted (e : ClassExpr) (hv : ∀ r ∈ e.items, Valid r) : Flat e.eval := eval_flat e hv
+
+/-- `GetRanges` denotes exactly the set-theoretic meaning of the expression: ranges and single
+characters, negation `~[…]` (complement in `0 … 0x10FFFF`), difference `[…]-[…]`
+(and the unused `Add`), for every expression whose items satisfy `From ≤ To`. -/
+theorem eval_den (e : ClassExpr) (hv : ∀ r ∈ e.items, Valid r) (c : Int) :
+    Den e.eval c ↔ meaning e c := by
+  induction e generalizing c with
+  | cls neg items =>
+    have hf := flatten_flat' items hv
+    cases neg with
+    | false => simpa [ClassExpr.eval, meaning] using flatten_den' items hv c
+    | true =>
+      simp only [ClassExpr.eval, meaning, if_true]
+      rw [subtract_den' _ _ flat_full.1 hf.1, flatten_den' items hv]
+      simp [Den, and_assoc]
+  | sub l r ihl ihr =>
+    simp only [ClassExpr.items, List.mem_append] at hv
+    have hl : ∀ x ∈ l.items, Valid x := fun x hx => hv x (Or.inl hx)
+    have hr : ∀ x ∈ r.items, Valid x := fun x hx => hv x (Or.inr hx)
+    simp only [ClassExpr.eval, meaning]
+    rw [subtract_den' _ _ (eval_flat l hl).1 (eval_flat r hr).1, ihl hl, ihr hr]
+  | add l r ihl ihr =>
+    simp only [ClassExpr.items, List.mem_append] at hv
+    have hl : ∀ x ∈ l.items, Valid x := fun x hx => hv x (Or.inl hx)
+    have hr : ∀ x ∈ r.items, Valid x := fun x hx => hv x (Or.inr hx)
+    simp only [ClassExpr.eval, meaning]
+    rw [flatten_den', den_append, ihl hl, ihr hr]
+    intro x hx
+    rcases List.mem_append.1 hx with hx | hx
+    · exact (eval_flat l hl).1 x hx
+    · exact (eval_flat r hr).1 x hx
+
+/-- `.` matches exactly the code points `0 … 0x10FFFF`. -/
+theorem dot_den (c : Int) : Den ClassExpr.dot.eval c ↔ 0 ≤ c ∧ c ≤ maxRune := by
+  rw [eval_den _ (by intro r hr; simp [ClassExpr.dot, ClassExpr.items] at hr; subst hr; decide)]
+  simp [ClassExpr.dot, meaning, Den]
+
+-- `~[a-z0-9_] - [\u0000-\u001f]`
+example : (ClassExpr.sub (.cls true [⟨97, 122⟩, ⟨48, 57⟩, ⟨95, 95⟩]) (.cls false [⟨0, 31⟩])).eval =
+    [⟨32, 47⟩, ⟨58, 94⟩, ⟨96, 96⟩, ⟨123, maxRune⟩] := by decide
+
+/-! ## 4. `Normalize` terminates and never reaches `panic("not reached")` -/
+
+/-- For every list of ranges with `b ≤ e`, the loop of `Normalize` (range.go) ends normally: the
+four geometric cases are exhaustive for two distinct intersecting ranges taken from the heap in
+`Compare` order, and the fuel of the model is not exhausted (measure: total length of the heap). -/
+theorem normalize_total (rs : List Range) (hv : ∀ r ∈ rs, Valid r) : normalize rs ≠ none := by
+  obtain ⟨L, _, _, hL, _⟩ := normalize_spec rs hv
+  simp [hL]
+
+/-- More fuel does not change the outcome: the model's `normalize` is the fuel-free loop. -/
+theorem normalize_fuel_suffices (rs : List Range) (hv : ∀ r ∈ rs, Valid r) (fuel' : Nat)
+    (hf : normalizeFuel rs ≤ fuel') : normalizeLoop fuel' (heapOf rs) [] = normalize rs := by
+  obtain ⟨L, _, _, hL, _⟩ := normalize_spec rs hv
+  rw [hL]
+  exact normalizeLoop_fuel_ge _ _ _ _ _ hL hf
+
+theorem normalizePieces_total (rs : List Range) (hv : ∀ r ∈ rs, Valid r) : normalizePieces rs ≠ none := by
+  obtain ⟨ps, hps, _⟩ := normalizePieces_spec rs hv
+  simp [hps]
+
+/-- Every `onChange(o, a, b, c)` call made by `Normalize` splits a label that is currently present:
+`o` is in the label set the earlier calls produced (this is `assert.True(len(states) > 0)` in
+`mode.normalizeInputs`), `a`, `b`, `c` lie inside `o` and together cover `o`. -/
+theorem normalize_callbacks_split (rs : List Range) (hv : ∀ r ∈ rs, Valid r) (log : List NormCb)
+    (h : normalize rs = some log) : CbsOk (heapOf rs) log := by
+  obtain ⟨L, _, _, hL, _, _, hcbs⟩ := normalize_spec rs hv
+  rw [hL] at h
+  cases h
+  exact hcbs
+
+/-! ## 5. The pieces `Normalize` leaves behind -/
+
+/-- The final pieces are non-empty, pairwise disjoint and listed in increasing order. -/
+theorem normalize_disjoint (rs : List Range) (hv : ∀ r ∈ rs, Valid r) (ps : List Range)
+    (h : normalizePieces rs = some ps) :
+    (∀ p ∈ ps, Valid p) ∧ ps.Pairwise (fun p q => p.e < q.b) := by
+  obtain ⟨ps', hps, h1, h2, _⟩ := normalizePieces_spec rs hv
+  rw [hps] at h; cases h
+  exact ⟨h1, h2⟩
+
+/-- Every input range is the exact union of the final pieces it contains. -/
+theorem normalize_refines (rs : List Range) (hv : ∀ r ∈ rs, Valid r) (ps : List Range)
+    (h : normalizePieces rs = some ps) (r : Range) (hr : r ∈ rs) (c : Int) :
+    (r.b ≤ c ∧ c ≤ r.e) ↔ ∃ p ∈ ps, r.contains p = true ∧ p.b ≤ c ∧ c ≤ p.e := by
+  obtain ⟨ps', hps, _, _, href⟩ := normalizePieces_spec rs hv
+  rw [hps] at h; cases h
+  constructor
+  · rintro ⟨h1, h2⟩
+    obtain ⟨p, hp, hsub, hc⟩ := href.cover r ((mem_heapOf rs r).2 hr) c h1 h2
+    exact ⟨p, hp, (contains_iff_inside r p).2 hsub, hc⟩
+  · rintro ⟨p, _, hsub, h1, h2⟩
+    have := (contains_iff_inside r p).1 hsub
+    unfold Inside at this
+    omega
+
+/-- Every final piece lies inside some input range … -/
+theorem normalize_pieces_inside (rs : List Range) (hv : ∀ r ∈ rs, Valid r) (ps : List Range)
+    (h : normalizePieces rs = some ps) (p : Range) (hp : p ∈ ps) :
+    ∃ r ∈ rs, r.contains p = true := by
+  obtain ⟨ps', hps, _, _, href⟩ := normalizePieces_spec rs hv
+  rw [hps] at h; cases h
+  obtain ⟨r, hr, hsub⟩ := href.inside p hp
+  exact ⟨r, (mem_heapOf rs r).1 hr, (contains_iff_inside r p).2 hsub⟩
+
+/-- … and no piece straddles the border of an input range: a piece that meets an input range lies
+inside it. So after `normalizeInputs` two transition labels are either equal or disjoint. -/
+theorem normalize_no_straddle (rs : List Range) (hv : ∀ r ∈ rs, Valid r) (ps : List Range)
+    (h : normalizePieces rs = some ps) (p : Range) (hp : p ∈ ps) (r : Range) (hr : r ∈ rs)
+    (hi : p.intersects r = true) : r.contains p = true := by
+  obtain ⟨hpv, hdis⟩ := normalize_disjoint rs hv ps h
+  obtain ⟨c, hcp, hcr⟩ := (intersects_iff p r (hpv p hp) (hv r hr)).1 hi
+  obtain ⟨q, hq, hsub, hcq⟩ := (normalize_refines rs hv ps h r hr c).1 hcr
+  have : p = q := disjoint_eq_of_common hdis hpv hp hq hcp hcq
+  subst this
+  exact hsub
+
+/-- Nothing is gained or lost: the pieces denote exactly the code points of the input. -/
+theorem normalize_den (rs : List Range) (hv : ∀ r ∈ rs, Valid r) (ps : List Range)
+    (h : normalizePieces rs = some ps) (c : Int) : Den ps c ↔ Den rs c := by
+  constructor
+  · rintro ⟨p, hp, h1, h2⟩
+    obtain ⟨r, hr, hsub⟩ := normalize_pieces_inside rs hv ps h p hp
+    have := (contains_iff_inside r p).1 hsub
+    unfold Inside at this
+    exact ⟨r, hr, by omega, by omega⟩
+  · rintro ⟨r, hr, hc⟩
+    obtain ⟨p, hp, _, hcp⟩ := (normalize_refines rs hv ps h r hr c).1 hc
+    exact ⟨p, hp, hcp⟩
+
+-- `[a-z]`, `[a-f]`, `[d-k]`, `x`, `[0-9]` and a duplicate
+example : normalizePieces [⟨97, 122⟩, ⟨97, 102⟩, ⟨100, 107⟩, ⟨120, 120⟩, ⟨48, 57⟩, ⟨97, 102⟩] =
+    some [⟨48, 57⟩, ⟨97, 99⟩, ⟨100, 102⟩, ⟨103, 107⟩, ⟨108, 119⟩, ⟨120, 120⟩, ⟨121, 122⟩] := by decide
+
+/-! ## 6. Merging pieces back (`mode.mergeTransitions`) -/
+
+/-- The callbacks of `Flatten`, applied as `mergeTransitions` applies them to a set `s` of labels
+that starts as the set of input ranges: every single callback leaves the denotation of the label
+set unchanged (`MergeOk`), and at the end the label set is exactly the set of returned ranges,
+which denotes exactly the input. -/
+theorem merge_sound (rs s : List Range) (hv : ∀ r ∈ rs, Valid r) (hs : ∀ x, x ∈ s ↔ x ∈ rs) :
+    MergeOk s (flattenWithLog rs).2 ∧
+    (∀ x, x ∈ (flattenWithLog rs).2.foldl applyFlatCb s ↔ x ∈ (flattenWithLog rs).1) ∧
+    (∀ c, Den ((flattenWithLog rs).2.foldl applyFlatCb s) c ↔ Den rs c) := by
+  have hinv := loopInv_sortRanges hv
+  have hlog := flattenLoop_log (sortRanges rs) [] s hinv
+    (logInv_init (fun x => (hs x).trans (mem_sortRanges rs x).symm))
+  refine ⟨hlog.2, hlog.1, fun c => ?_⟩
+  exact (den_congr hlog.1 c).trans (flatten_den' rs hv c)
+
+/-- The instance the driver prints (`rang3.flattenlog`): start from `heapOf rs`. -/
+theorem merge_sound_heapOf (rs : List Range) (hv : ∀ r ∈ rs, Valid r) :
+    ∀ x, x ∈ (flattenWithLog rs).2.foldl applyFlatCb (heapOf rs) ↔ x ∈ flatten rs :=
+  (merge_sound rs (heapOf rs) hv (mem_heapOf rs)).2.1
+
+/-- With pairwise distinct labels (the keys of a transition map) both `assert.True` calls in the
+callback of `mergeTransitions` hold: `oa` and `ob` are labels of the state when the callback runs. -/
+theorem merge_asserts_hold (rs s : List Range) (hv : ∀ r ∈ rs, Valid r) (hnd : rs.Nodup)
+    (hs : ∀ x, x ∈ s ↔ x ∈ rs) : MergeAsserts s (flattenWithLog rs).2 :=
+  flattenLoop_asserts (sortRanges rs) [] s (loopInv_sortRanges hv)
+    (logInv_init (fun x => (hs x).trans (mem_sortRanges rs x).symm))
+    (nodup_sortRanges rs hnd) (fun r hr => (hs r).2 ((mem_sortRanges rs r).1 hr)) (by simp)
+
+/-- `Flatten` sorts twice, the second time with an unstable sort that only looks at the lower
+bounds. Whatever order that leaves among ranges with equal lower bound, the merge loop returns the
+same ranges as the model (which keeps the `Compare` order), and `merge_sound` holds for that order too. -/
+theorem flatten_any_order (rs l : List Range) (hv : ∀ r ∈ rs, Valid r)
+    (hsorted : l.Pairwise (fun x y => x.b ≤ y.b)) (hperm : ∀ x, x ∈ l ↔ x ∈ rs) :
+    (flattenLoop l [] []).1 = flatten rs ∧
+    (∀ s, (∀ x, x ∈ s ↔ x ∈ rs) →
+      MergeOk s (flattenLoop l [] []).2 ∧
+      ∀ x, x ∈ (flattenLoop l [] []).2.foldl applyFlatCb s ↔ x ∈ flatten rs) := by
+  have heq := flattenLoop_any_order rs l hv hsorted hperm
+  refine ⟨heq, fun s hs => ?_⟩
+  have hvl : ∀ r ∈ l, Valid r := fun r hr => hv r ((hperm r).1 hr)
+  have hlog := flattenLoop_log l [] s (loopInv_init hsorted hvl)
+    (logInv_init (fun x => (hs x).trans (hperm x).symm))
+  rw [heq] at hlog
+  exact ⟨hlog.2, hlog.1⟩
+
+/-- Canonical lists are determined by their denotation … -/
+theorem canonical_unique (l1 l2 : List Range) (h1 : Flat l1) (h2 : Flat l2)
+    (h : ∀ c, Den l1 c ↔ Den l2 c) : l1 = l2 := flat_unique h1 h2 h
+
+/-- … so two class expressions with the same meaning get literally the same ranges. -/
+theorem eval_canonical (e1 e2 : ClassExpr) (h1 : ∀ r ∈ e1.items, Valid r) (h2 : ∀ r ∈ e2.items, Valid r)
+    (h : ∀ c, meaning e1 c ↔ meaning e2 c) : e1.eval = e2.eval :=
+  flat_unique (eval_flat e1 h1) (eval_flat e2 h2)
+    (fun c => (eval_den e1 h1 c).trans ((h c).trans (eval_den e2 h2 c).symm))
+
+-- three pieces of `[a-k]` and a separate `x` merged back
+example : flattenWithLog [⟨100, 102⟩, ⟨97, 99⟩, ⟨120, 120⟩, ⟨103, 107⟩] =
+    ([⟨97, 107⟩, ⟨120, 120⟩],
+     [⟨⟨97, 99⟩, ⟨100, 102⟩, ⟨97, 102⟩⟩, ⟨⟨97, 102⟩, ⟨103, 107⟩, ⟨97, 107⟩⟩]) := by decide
+
+/-! ## 7. What the NFA fragments of a class and of a literal accept -/
+
+/-- A class term accepts the single code point `c` iff `c` is in the meaning of the expression. -/
+theorem class_exact (e : ClassExpr) (hv : ∀ r ∈ e.items, Valid r) (c : Int) :
+    inRanges e.eval c = true ↔ meaning e c := by
+  rw [← eval_den e hv c]
+  simp [inRanges, Den]
+
+/-- The chain built for a literal spells exactly the literal's code-point sequence. -/
+theorem literal_exact (cps w : List Int) : chainMatches (literalLabels cps) w = true ↔ w = cps := by
+  induction cps generalizing w with
+  | nil => cases w <;> simp [literalLabels, chainMatches]
+  | cons c cps ih =>
+    cases w with
+    | nil => simp [literalLabels, chainMatches]
+    | cons d w =>
+      have := ih w
+      simp only [literalLabels] at this
+      simp only [literalLabels, List.map_cons, chainMatches, Bool.and_eq_true, decide_eq_true_eq,
+        this, List.cons.injEq]
+      constructor
+      · rintro ⟨⟨h1, h2⟩, h3⟩; exact ⟨by omega, h3⟩
+      · rintro ⟨h1, h2⟩; exact ⟨⟨by omega, by omega⟩, h2⟩
+
+example : chainMatches (literalLabels [105, 102]) [105, 102] = true ∧
+    chainMatches (literalLabels [105, 102]) [105] = false := by decide
 
 end Lox.Props.C15
